@@ -623,6 +623,11 @@ def run(ctx, rep):
             f(ctx, rep)
         except Unsupported as u:
             rep.undecided(rule, f.__name__, f"line {getattr(u.node, 'lineno', 0)}", str(u))
+    # one log-determinant PER SAMPLE: no reduction over the whole tensor in the transforms (C10.D on the transform modules)
+    from props import c10 as _c10
+    from sa.report import RuleProxy as _RPd
+    _c10.check_whole_reductions(ctx, _RPd(rep, 'C07.L', 'per-sample::'), only=lambda mn: mn in ('torchtree.distributions.transforms', 'torchtree.evolution.rate_transform',
+                                                                                                  'torchtree.evolution.tree_height_transform'))
     # the image handed to log_abs_det_jacobian must be the image of the *current* value: torch's identity-keyed (x, y) cache must stay off
     from props import c11
     c11.check_transform_cache(ctx, rep, rule='C07.C')
